@@ -234,6 +234,15 @@ def run(tier, seed, rng):
                                         oracle_rejects=bad[1], correspondence=CORRESPONDENCES[1], theorems=THEOREMS[3:],
                                         oracle='range, step0, min formula'))
         sk = sorted(set(ks))
+        # the schedule is a FUNCTION of the step: the same object queried again in descending order (after it has seen
+        # saturating steps) must return what a fresh object returns
+        for k in reversed(sk):
+            a, b = w(k), exp_decay_factor_averaging(cap)(k)
+            if a != b:
+                failures.append(Failure(what=f'exp_decay({cap})({k}) = {a!r} on an object that was queried before, {b!r} on a fresh one: the value depends on the call history',
+                                        case={'kind': 'exp_decay_history', 'cap': float(cap).hex(), 'k': k}, model=b, impl=a, oracle_rejects=True,
+                                        correspondence=CORRESPONDENCES[1], theorems=['exp_decay_is_min'], oracle='min(1 - 1/max(k,1), cap) is a function of k'))
+                break
         vs = [w(k) for k in sk]
         if any(a > b for a, b in zip(vs, vs[1:])):
             failures.append(Failure(what=f'exp_decay({cap}) is not non-decreasing', case={'kind': 'exp_decay_mono', 'cap': float(cap).hex()},
